@@ -117,8 +117,8 @@ Section CacheTestProofs.
     unfold CacheTestModel.assert_solve, consume, gen_assert_solve.
     destruct (check (qids id formula q) cores) eqn:Hhit.
     - rewrite (Hc (hit_unsat id id_eqb id_eqb_spec formula Vr holds_r qs cores q Hst Hw Hq Hhit)).
-      unfold solve_end_to_end. rewrite Hhit. reflexivity.
-    - unfold solve_end_to_end. rewrite Hhit, (check_nil id id_eqb id_eqb_spec). unfold solve_low_level.
+      rewrite e2e_eq, Hhit. reflexivity.
+    - rewrite !e2e_eq, Hhit, (check_nil id id_eqb id_eqb_spec). unfold solve_low_level.
       destruct (low false q) as [m [|] | co | |] eqn:E; simpl; try reflexivity.
       destruct (refine_changes q); [|reflexivity].
       rewrite !strip_from_result. reflexivity.
